@@ -19,12 +19,14 @@ BOUNDS = dict(
     quick=dict(mesh="all N1xN2xN3 with N_i<=6 and <=24 points (edit lists); <=4 points (arbitrary selections); <=5 points (all orderings)",
                list="(a) every ordering of the complete mesh (symbolic permutation); (b) every list of nk-1..nk+1 entries drawn with repetition "
                     "from the mesh (symbolic selection: covers orderings, removals, duplications at once); (c) a seeded base ordering with one symbolic "
-                    "edit: swap of two positions, removal of one position, duplication of one entry at any position, replacement of one entry by any mesh point",
+                    "edit: swap of two positions, removal of one position, duplication of one entry at any position, replacement of one entry by any mesh point; "
+                    "(d) incomplete lists of whole planes: every non-empty symbolic subset of the planes of a 6-mesh (3 axis placements, 6x2x1), and for N=10, 12 the union of two "
+                    "symbolic sub-meshes d1,d2|N minus one symbolic plane (2u5, 3u4, mesh without its finest planes, mixed denominators)",
                perturbation=f"every coordinate = double(m/N) + delta, delta symbolic in [-{DELTA},{DELTA}] (N<=50; 1e-10 for N>50)"),
     thorough=dict(mesh="as quick plus N x1x1 / 1xNx1 / 1x1xN for N in 7,8,9,12,16,25,50,97,100 (seeded order; one symbolic removal for N<=25 and N=100) and <=36 points; <=5 points (selections); <=6 points (all orderings)",
                   list="as quick", perturbation="as quick"))
 EXPLANATION = ("The real get_mp_grid / grid_from_kpoints / is_round run on a list of k-points whose composition and order are finite-choice symbolic values "
-               "(z3 integers: permutation, selection with repetition, or one symbolic edit of a base ordering) and whose coordinates carry a symbolic "
+               "(z3 integers: permutation, selection with repetition, one symbolic edit of a base ordering, or a symbolic subset of mesh planes) and whose coordinates carry a symbolic "
                "perturbation |delta|<=4e-9; rounding (np.round) and Fraction.limit_denominator are evaluated per alternative with z3 guards on delta. "
                "On each feasible path the result is compared with the specification: complete mesh => N / every point exactly once; incomplete => ValueError; "
                "duplicates counted once.")
@@ -234,6 +236,10 @@ def base_order(mesh, seed, which):
     return idx
 
 
+def divisors(N):
+    return [d for d in range(1, N + 1) if N % d == 0]
+
+
 def build_list(model, mesh, seed, L=None, base="shuffled", first=None):
     """returns (make, assumptions): make() -> concrete index list on the current path (forks)"""
     nk = int(np.prod(mesh))
@@ -247,6 +253,28 @@ def build_list(model, mesh, seed, L=None, base="shuffled", first=None):
         return (lambda: [int(c[0].concretize()) for c in ch]), sum((c[1] for c in ch), []) + ([ch[0][2] == first] if first is not None else [])
     b = base_order(mesh, seed, base)
     n = len(b)
+    if model in ("planes", "union"):
+        # incomplete lists made of whole planes along the finest axis (seeded order inside): "planes" keeps an arbitrary symbolic non-empty subset of the planes;
+        # "union" keeps the planes of two sub-meshes d1, d2 | N (symbolic pair of divisors: union of two coarser meshes, or a mesh without its finest planes) minus one symbolic plane
+        ax = int(np.argmax(mesh))
+        N = mesh[ax]
+        pts = mesh_points(mesh)
+        if model == "planes":
+            keep = [sym_choice(f"keep{j}", [0, 1]) for j in range(N)]
+            ass = sum((k[1] for k in keep), []) + [z3.Or(*[k[2] == 1 for k in keep])]
+            def make():
+                kept = {j for j in range(N) if int(keep[j][0].concretize())}
+                return [p for p in b if pts[p][ax] in kept]
+            return make, ass
+        divs = divisors(N)
+        d1, a1, p1 = sym_choice("d1", divs)
+        d2, a2, p2 = sym_choice("d2", divs)
+        e, ae, pe = sym_choice("dropped", list(range(N + 1)))          # N = no extra plane removed
+        def make():
+            x, y, z = int(d1.concretize()), int(d2.concretize()), int(e.concretize())
+            kept = {j for j in range(N) if j % (N // x) == 0 or j % (N // y) == 0} - {z}
+            return [p for p in b if pts[p][ax] in kept]
+        return make, a1 + a2 + ae + [p1 < p2]
     if model == "fixed":
         return (lambda: list(b)), []
     i, ai, pi = sym_choice("ei", list(range(n)))
@@ -388,7 +416,7 @@ def case_mesh(rec, fn, mesh, model, seed, L=None, base="shuffled", first=None, g
     shadow([U], proxy, Fraction=FracStub, warnings=NoWarn)
     make, ass = build_list(model, mesh, seed, L=L, base=base, first=first)
     nk = int(np.prod(mesh))
-    Lmax = {"perm": nk, "select": L, "fixed": nk, "drop": nk - 1, "swap": nk, "dup": nk + 1, "repl": nk}[model]
+    Lmax = {"perm": nk, "select": L, "fixed": nk, "drop": nk - 1, "swap": nk, "dup": nk + 1, "repl": nk, "planes": nk, "union": nk}[model]
     dmax = delta_for(mesh)
     dl = symvec("d", (Lmax, 3), lo=-dmax, hi=dmax)
     ass = list(ass) + [z for d in dl.flat for z in (d.zreal() >= -dmax, d.zreal() <= dmax)]
@@ -459,7 +487,8 @@ def _weight(j):
     nk = int(np.prod(j["mesh"]))
     mo = j["model"]
     p = {"perm": math.factorial(nk) // (nk if j.get("first") is not None else 1), "select": nk ** (j.get("L") or 0) // (nk if j.get("first") is not None else 1), "drop": nk,
-         "dup": nk * (nk + 1), "repl": nk * nk, "swap": nk * (nk - 1) // 2, "fixed": 1}[mo]
+         "dup": nk * (nk + 1), "repl": nk * nk, "swap": nk * (nk - 1) // 2, "fixed": 1,
+         "planes": 2 ** max(j["mesh"]) - 1, "union": len(divisors(max(j["mesh"]))) * (len(divisors(max(j["mesh"]))) - 1) // 2 * (max(j["mesh"]) + 1)}[mo]
     return p * (10 + nk)
 
 
@@ -510,6 +539,15 @@ def jobs_for(tier):
             if small or nk <= (8 if q else 9):
                 add(fn, grid, mesh, "dup")
                 add(fn, grid, mesh, "swap", base="reversed")
+    # incomplete lists of whole planes: mixed denominators, coarser sub-meshes, unions of coprime meshes (2 u 3 in 6, 2 u 5 in 10, 3 u 4 in 12)
+    for mesh in [(6, 1, 1), (1, 6, 1), (1, 1, 6), (6, 2, 1)] + ([] if q else [(2, 1, 6), (1, 8, 1), (9, 1, 1)]):
+        for fn, grid in fns:
+            if grid is None or mesh == (6, 1, 1):
+                add(fn, grid, mesh, "planes")
+    for mesh in [(10, 1, 1), (1, 12, 1)] + ([] if q else [(1, 1, 10), (12, 1, 1), (1, 2, 12), (18, 1, 1), (1, 20, 1), (1, 1, 30)]):
+        for fn, grid in fns:
+            if grid is None or mesh in [(10, 1, 1), (12, 1, 1)]:
+                add(fn, grid, mesh, "union")
     # sub-grid selection: a finer mesh is given, the coarser grid is requested
     for mesh, grid in [((4, 1, 1), (2, 1, 1)), ((2, 4, 1), (2, 2, 1)), ((6, 1, 1), (3, 1, 1)), ((1, 6, 1), (1, 2, 1))]:
         add("grid_from_kpoints", grid, mesh, "perm" if np.prod(mesh) <= 4 else "repl")
